@@ -640,8 +640,10 @@ fn maybe_press_sft_during_activation(
     kb: &mut KbdOut,
     zchd: &ZchDynamicState,
 ) -> Result<(), std::io::Error> {
-    if !zchd.zchd_is_caps_word_active
-        && (sft_already_released || !zchd.zchd_is_lsft_active && !zchd.zchd_is_rsft_active)
+    // Caps-word holds shift only while a key that it capitalizes is pressed; when no shift is held
+    // at all, an uppercase output still needs its own shift.
+    if !zchd.zchd_is_lsft_active && !zchd.zchd_is_rsft_active
+        || !zchd.zchd_is_caps_word_active && sft_already_released
     {
         kb.press_key(OsCode::KEY_LEFTSHIFT)?;
     }
@@ -653,8 +655,8 @@ fn maybe_release_sft_during_activation(
     kb: &mut KbdOut,
     zchd: &ZchDynamicState,
 ) -> Result<(), std::io::Error> {
-    if !zchd.zchd_is_caps_word_active
-        && (sft_already_released || !zchd.zchd_is_lsft_active && !zchd.zchd_is_rsft_active)
+    if !zchd.zchd_is_lsft_active && !zchd.zchd_is_rsft_active
+        || !zchd.zchd_is_caps_word_active && sft_already_released
     {
         kb.release_key(OsCode::KEY_LEFTSHIFT)?;
     }
